@@ -1,6 +1,6 @@
 (* Command dispatcher of the extracted engine. *)
 From Zorg Require Import Base.PyStr Base.Sexp Base.Res.
-From Zorg Require Import Model.FileGroups Model.Zid Model.Rename Model.Templates.
+From Zorg Require Import Model.FileGroups Model.Zid Model.Rename Model.Templates Model.SavedQ.
 
 Definition commands : list (str * (list sexp -> sexp)) :=
   [ (S "expand", cmd_expand)
@@ -13,6 +13,8 @@ Definition commands : list (str * (list sexp -> sexp)) :=
   ; (S "rename_dir", cmd_rename_dir)
   ; (S "tmpl_plan", cmd_tmpl_plan)
   ; (S "build_body", cmd_build_body)
+  ; (S "expand_saved", cmd_expand_saved)
+  ; (S "names_in", cmd_names_in)
   ].
 
 Fixpoint find_cmd (n : str) (l : list (str * (list sexp -> sexp))) : option (list sexp -> sexp) :=
